@@ -441,7 +441,7 @@ def assemble(vacuity=False, only_files=None, extra_theorems=True, extracted=None
                 seen_types[nm] = norm
                 A.add(t)
                 continue
-            if kind in ("struct", "enum", "const", "trait"):
+            if kind in ("struct", "enum", "const", "trait", "const_plain"):
                 buf, i = collect_block(i)
                 if kind == "const":
                     t = "\n".join(buf)
